@@ -210,8 +210,9 @@ def run(ctx):
             "etree Element.childNodes is no longer the (getter, setter) property pair")
     setter = et_el.methods.get("_setChildNodes")
     ssrc = " ".join(norm(setter.node).split()) if setter else ""
-    r.check("C04.3", "del self._element[:]" in ssrc and "self._childNodes = []" in ssrc, "etree-setter-clears-both", et_el.where,
-            "the childNodes setter does not clear both the ElementTree children and the shadow list")
+    r.idiom("C04.3", "del self._element[:]" in ssrc and "self._childNodes = []" in ssrc, "etree-setter-clears-both", et_el.where,
+            "the childNodes setter does not clear both the ElementTree children and the shadow list",
+            wrong=[(setter is not None and ("_element" not in ssrc or "_childNodes" not in ssrc), None)])
 
     # ---- C04.7: attribute keys given as (prefix, local, namespace) tuples use the namespace in both back-ends
     for cls, label, meth in ((et_el, "etree", "_setAttributes"), (dm_el, "dom", "setAttributes")):
